@@ -308,6 +308,8 @@ def jsonld_values(uri):
         ("id-only", {"@id": uri}),
         ("prefix-false", {"@id": uri, "@prefix": False}),
         ("prefix-false-only", {"@prefix": False}),
+        ("prefix-true-only", {"@prefix": True}),                     # an expanded term definition need not carry @id
+        ("prefix-true-null-id", {"@id": None, "@prefix": True}),
         ("number", 5),
         ("null", None),
         ("list", [uri]),
@@ -369,7 +371,7 @@ def check_jsonld_raw(items, ctx=None):
         if key and not key.startswith("@"):
             if isinstance(value, str):
                 denot.append(mrec(key, value))
-            elif isinstance(value, dict) and value.get("@prefix") is True:
+            elif isinstance(value, dict) and value.get("@prefix") is True and isinstance(value.get("@id"), str):
                 denot.append(mrec(key, value["@id"]))
     model = Model(denot, ":")
     if not model.valid():
